@@ -52,6 +52,8 @@ func (r *detReader) Read(p []byte) (int, error) {
 type XW struct {
 	// SenderPause > 0 makes rawRequest send its request in two pieces, that far apart.
 	SenderPause time.Duration
+	// ReaderPause > 0 makes rawRequest wait that long before reading each further frame.
+	ReaderPause time.Duration
 	S     *core.Sim
 	Net   mocknet.Mocknet
 	Hosts []host.Host // [0] = client
